@@ -3,5 +3,5 @@
 TIER=${1:-quick}; shift
 IDS=${@:-C01 C02 C03 C04 C05 C06 C07 C08 C09 C10 C11 C12 C13 C14 C15 C16 C17 C18 C19 C20}
 cd "$(dirname "$0")/.."
-mkdir -p /tmp/run_all
-for id in $IDS; do echo $id; done | xargs -P 4 -I{} sh -c "./check {} --tier $TIER > /tmp/run_all/{}.log 2>&1; echo \"{} exit=\$? \$(grep -E '^(OK|VIOLATION|KNOWN)' /tmp/run_all/{}.log | head -3 | cut -c1-150 | tr '\n' '|')\""
+L=/tmp/run_all.$$; mkdir -p $L
+for id in $IDS; do echo $id; done | xargs -P 4 -I{} sh -c "./check {} --tier $TIER > $L/{}.log 2>&1; echo \"{} exit=\$? \$(grep -E '^(OK|VIOLATION|KNOWN)' $L/{}.log | head -3 | cut -c1-150 | tr '\n' '|')\""
